@@ -11,7 +11,7 @@ Property text → theorems
     `held_never_prepared_run`
 * "holding an instance that is not yet in the pool takes effect when it spawns"
     `hold_command_recorded`, `hold_kept_until_released_or_removed`, `future_hold`, `hold_table_exact`,
-    `hold_point_command`
+    `hold_point_command`, `start_hold_point`
 * "the set of held instances and the hold point survive a restart"
     `hold_persist`, `hold_persist_partial`; the unrestricted statement `hold_persist_full` is FALSE for the
     model (and for cylc-flow, finding `rehold-after-restart`): `hold_persist_counterexample`.
@@ -101,6 +101,22 @@ theorem hold_point_command (g : Graph) (s : State) (p : Int) :
     (step g s (.setHoldPoint p)).holdPoint = some p ∧
       ∀ y ∈ (step g s (.setHoldPoint p)).pool, y.pt > p → y.held = true :=
   setHoldPoint_holds (clearOp s) p
+
+/-- **Hold point given at start-up** (`cylc play --hold-after=p`: `Scheduler.configure` issues the same command
+right after the pool is loaded, i.e. the run begins with the op `setHoldPoint p`): in the first observable state the
+point is in force and every pooled proxy beyond it is held — including those that start-up had already queued — and
+by `held_never_prepared_run` none of them is launched by whatever comes next. -/
+theorem start_hold_point (g : Graph) (p : Int) (op : Op) :
+    (final g [.setHoldPoint p]).holdPoint = some p ∧
+    (∀ y ∈ (final g [.setHoldPoint p]).pool, y.pt > p → y.held = true) ∧
+    (∀ y ∈ (final g [.setHoldPoint p]).pool, y.pt > p →
+      ∀ sn, (y.pt, y.name, sn) ∉ (final g ([.setHoldPoint p] ++ [op])).launched) := by
+  have h := hold_point_command g (init g) p
+  have hf : final g [.setHoldPoint p] = step g (init g) (.setHoldPoint p) := rfl
+  rw [hf]
+  refine ⟨h.1, h.2, fun y hy hgt sn => ?_⟩
+  have := held_never_prepared_run g [.setHoldPoint p] op y (hf ▸ hy) (h.2 y hy hgt) sn
+  exact this
 
 /-! ### holds and restart -/
 
@@ -202,6 +218,13 @@ example :
       [(1, "a", .preparing, false), (2, "a", .running, false), (3, "a", .waiting, true), (2, "b", .waiting, true)] ∧
     (final exGraph [.setHoldPoint 1, .release [(2, "a")], .loop, .subres 2 "a" true 1,
         .msg 2 "a" 1 "started", .loop]).tasksToHold = [("a", 3), ("b", 2)] := by
+  decide +kernel
+
+-- start-up hold point 1: 2/a was queued by start-up and is held while queued; the first main loop launches 1/a only
+example :
+    (view (final exGraph [.setHoldPoint 1]) = [(1, "a", .waiting, false), (2, "a", .waiting, true), (3, "a", .waiting, true)]) ∧
+    ((final exGraph [.setHoldPoint 1]).pool.map fun x => x.queued) = [true, true, false] ∧
+    (final exGraph [.setHoldPoint 1, .loop]).launched = [(1, "a", 1)] := by
   decide +kernel
 
 /-- the history of the counterexample: hold point 1, then 2/a (beyond it) is released individually, stop now -/
